@@ -189,7 +189,15 @@ def run(ctx):
     vlib.tlc_mc(ctx, "ParseStream", "MC_ParseStream_big.cfg" if thorough else "MC_ParseStream.cfg", timeout=2400)
     vlib.tlc_mc(ctx, "IStream", "MC_IStream.cfg", timeout=2400)
     if thorough:
-        vlib.tlc_mc(ctx, "IStream", "MC_IStream_big.cfg", timeout=3000)
+        r = vlib.tlc_mc(ctx, "IStream", "MC_IStream_big.cfg", timeout=3000, coverage=True)
+        # vacuity: every call of the model is generated; the four calls that can reach new states are taken
+        # (literal / char_set reach the same states as get_char, so TLC reports them as generated only)
+        cov = r.coverage()
+        for a in ("IGetChar", "IGetPosition", "ISetPosition", "ISetBad", "ILiteral", "ICharSet"):
+            taken, gen = cov.get(a, (0, 0))
+            if gen == 0 or (taken == 0 and a not in ("ILiteral", "ICharSet")):
+                raise vlib.Infra("coverage: action %s of IStream never taken (%d:%d)" % (a, taken, gen))
+        ctx.extra["action_coverage"] = {a: list(cov[a]) for a in cov if a.startswith("I") and a != "IInit"}
     # vacuity guards: each re-introduced defect must violate the named invariant
     for cfg, inv in (("MC_IStream_colbug.cfg", "SavedExact"), ("MC_IStream_colbug_future.cfg", "FutureRefines"),
                      ("MC_IStream_setposbug.cfg", "Refines"), ("MC_IStream_eofbug.cfg", "ReturnsAgree")):
